@@ -288,6 +288,14 @@ def catalogue(rng, inp):
         ("utils.opt_th", lambda: U.optimum_threshold(0.1, 1.0, 0.01, 0.02, "ppm", 4), True),
         ("utils.nearest", lambda: (U.nearest(v, 1.0), U.norm(np.abs(v))), True),
     ]
+    # blocks called with the same absolute bandwidths on every grid: a design memoised without the sampling rate in its key goes stale
+    cat += [
+        ("BPF.abs", lambda: D.BPF(o2, 2e9, 3), True),
+        ("LPF.abs", lambda: D.LPF(ES(v), 1.5e9, 3), True),
+        ("MZM.bw.abs", lambda: D.MZM(o1c, 1.0, bias=0.5, Vpi=4.0, BW=3e9), True),
+        ("PD.ase.abs", lambda: D.PD(o1c, 1.2e9, 1.0, 300, 50, "ase-only", 0.0), True),
+        ("DAC.bw.abs", lambda: D.DAC(b, 0.0, 1.0, "nrz", BW=1.4e9), True),
+    ]
     # second argument sets for the main blocks: a block that remembers anything from an earlier call shows up as order dependence
     cat += [
         ("DAC.rz.v2", lambda: D.DAC(b[::-1].copy(), 0.3, 0.7, "rz"), True),
@@ -461,6 +469,17 @@ def pool_digests(ctx, reverse=False):
     sps = 8
     base = np.random.Generator(np.random.PCG64([ctx.seed, 77]))
     with core.quiet():
+        if reverse:
+            # the fresh interpreter first works on ANOTHER grid (same absolute bandwidths), then on the pool's grid
+            other = np.random.Generator(np.random.PCG64([ctx.seed, 78]))
+            T.gv.clean()
+            T.gv(sps=16, R=2.5e9, N=8)
+            inp_b = std_inputs(other, 16, 16)
+            cat_b, _ = catalogue(other, inp_b)
+            np.random.seed(2)
+            for n_, f_, d_ in cat_b:
+                if n_ != "FBG":
+                    f_()
         T.gv.clean()
         T.gv(sps=sps, R=1e9, N=32)
         inp = std_inputs(base, sps, 32)
